@@ -28,7 +28,7 @@ def plan(tier):
 def gen_case(rng, tier, i):
     from vlib.proggen import gen_program
     clock = ["float", "int", "duration"][i % 3]
-    prog = gen_program(rng, clock=clock, n_events=rng.randint(5, 60), bigint=True)
+    prog = gen_program(rng, clock=clock, n_events=rng.randint(5, 60), bigint=True, fractional=True)
     # one case in four reaches the end through a bounded run first (the executed events must be the same; the horizon
     # rules themselves are C03's subject): the bound is a fraction of the run length added to the start time
     return {"prog": prog, "via_bound": rng.choice([None, None, None, 0.25, 0.5, 0.75]) if i % 4 == 3 else None,
@@ -135,7 +135,7 @@ def run_case(case, ctx):
             ctx.viol("not-ended-after-start", {**where, "snapshot": snap})
             return
         # handlers saw the clock type of the simulator
-        ctype = {"float": ("float", "int"), "int": ("int",), "duration": ("Duration",)}[prog["clock"]]
+        ctype = {"float": ("float", "int"), "int": ("int", "float"), "duration": ("Duration",)}[prog["clock"]]     # (an int clock takes fractional event times)
         for tag, c, tn, pr in h.hlog:
             if tn not in ctype:
                 ctx.viol("clock-type-inside-handler", {**where, "tag": tag, "type": tn})
